@@ -403,7 +403,12 @@ Section Parser.
               nx <-- liftR (eat_char ;;; peek_or_null) ;;
               if (nx =? 0) || is_delimiter nx then
                 match acc with
-                | [] => liftR (peek_error ExpectedSomeValue)
+                | [] =>
+                    o3 <-- liftR peek ;;
+                    match o3 with
+                    | Some _ => liftR (peek_error ExpectedSomeValue)
+                    | None => liftR (peek_error EofWhileParsingList)
+                    end
                 | _ =>
                     ov <-- next_value f ;;
                     match ov with
@@ -559,7 +564,12 @@ Section Parser.
               nx <-- liftR (eat_char ;;; peek_or_null) ;;
               if (nx =? 0) || is_delimiter nx then
                 match acc with
-                | [] => liftR (peek_error ExpectedSomeValue)
+                | [] =>
+                    o3 <-- liftR peek ;;
+                    match o3 with
+                    | Some _ => liftR (peek_error ExpectedSomeValue)
+                    | None => liftR (peek_error EofWhileParsingList)
+                    end
                 | _ =>
                     od <-- next_datum f ;;
                     match od with
